@@ -11,7 +11,7 @@ import math
 import numpy as np
 
 from vkit import lens as L
-from vkit import monitors
+from vkit import monitors, suite_monitor
 from vkit.oracles import shapes as S
 
 ID = 'C16'
@@ -45,6 +45,10 @@ def shard_finish(rec):
     for name, n in log.evals.items():
         bad = [b for b in log.bad if b[0] == name]
         rec.check(name, not bad, n=n, msg=f'{name} broken (intensity grew inside RealRays.propagate/clip): {bad[:2]}')
+
+
+def fixed_cases(tier):
+    return [dict(kind='repo-suite', tests=(['tests'] if tier == 'thorough' else ['tests/test_rays.py', 'tests/test_optic.py', 'tests/test_standard_surface.py', 'tests/test_wavelength.py', 'tests/test_coatings.py']))]
 
 
 def gen_case(rng, tier, i):
@@ -114,6 +118,9 @@ def medium_k(m, wl, lens_surface_post):
 
 
 def check_case(case, rec):
+    if case.get('kind') == 'repo-suite':
+        suite_monitor.record(rec, suite_monitor.run(('intensity',), case['tests']), ['C16.intensity-not-created'])
+        return
     spec = case['spec']
     lens = L.build(spec)
     classes = case['classes']
